@@ -182,6 +182,14 @@ def check_case(ctx, case):
                 trt.length[i] = None if i == trt.root else 0.5 + k / 8.0
         target = shapes.build_tree(samples.spec_of(trt), ns, taxa, is_rooted=rooted_flag)
         st_ = case["settings"]
+        predecorated = case["target"]["sel"] % 3 == 0
+        if predecorated:
+            # a target that already carries (static) annotations of the same names, e.g. read from an annotated source
+            # or summarised before against another collection: they must be replaced, not kept
+            for nd0 in target.preorder_node_iter():
+                nd0.annotations.add_new("support", 0.125)
+                nd0.edge.annotations.add_new("length_mean", 123.0)
+            ctx.cls("target:predecorated_with_stale_annotations")
         skw = {"support_as_percentages": st_["pct"], "set_support_as_node_label": st_["label"], "support_label_decimals": st_["decimals"]}
         if st_["sel"] is not None:
             skw["set_edge_lengths"] = st_["sel"]
@@ -213,6 +221,9 @@ def check_case(ctx, case):
             got = getattr(nd, "support", None)
             ctx.check(got == want, "node_support_is_split_frequency", "C05.support",
                       lambda: "node over %s support %r want %r; %s" % (fmt(k), got, want, tag))
+            av = [a.value for a in nd.annotations if a.name == "support"]
+            ctx.check(av == [want], "support_annotation_is_split_frequency", "C05.support_annotation",
+                      lambda: "node over %s: support annotations %r want [%r] (predecorated=%r); %s" % (fmt(k), av, want, predecorated, tag))
             if st_["label"]:
                 wl = "{:.{places}f}".format(want, places=st_["decimals"])
                 ctx.check(nd.label == wl, "support_label_text", "C05.support_label", lambda: "label %r want %r" % (nd.label, wl))
@@ -223,6 +234,10 @@ def check_case(ctx, case):
                 e = nd.edge
                 scale = max(abs(v) for v in vals)
                 chk = [("length_mean", samples.ref_mean(vals), TOL), ("length_median", samples.ref_median(vals), TOL)]
+                am = [a.value for a in e.annotations if a.name == "length_mean"]
+                ctx.check(len(am) == 1 and isinstance(am[0], (int, float)) and abs(am[0] - samples.ref_mean(vals)) <= TOL * (1 + scale),
+                          "edge_length_mean_annotation", "C05.edge_summary_annotation",
+                          lambda: "split %s: length_mean annotations %r want %r (predecorated=%r)" % (fmt(k), am, samples.ref_mean(vals), predecorated))
                 for name, wv, tol in chk:
                     gv = getattr(e, name, None)
                     ctx.check(isinstance(gv, (int, float)) and abs(gv - wv) <= tol * (1 + scale), "edge_length_summary", "C05.edge_summary:" + name,
